@@ -226,7 +226,9 @@ func shuffleKeepKeyOrder(rng *rand.Rand, kvs []kv) []kv {
 }
 
 var pathStrVals = []string{"x", "ab", "Z_9", "a.b", "a-b", "~", "a!b", "$&'", "(a)", "*", "a+b", "a,b", "a;b", "k=v", "@me", "1", "true", "0",
-	"é", "日本", "null", "-1", "1e3", strings.Repeat("p", 200), "ü1", "get"}
+	"é", "日本", "null", "-1", "1e3", strings.Repeat("p", 200), "ü1", "get",
+	// dot segments are ordinary path text for a variable (no path cleaning)
+	"docs", "..", "img", ".", "logo.png", "...", "a.", ".a", "a..b", ".."}
 
 // pathTextFor picks a canonical, path-safe text for a variable. idx < 0 =
 // random choice.
@@ -524,9 +526,29 @@ func fieldKey(rng *rand.Rand, fd protoreflect.FieldDescriptor, naming int) strin
 
 // instantiate renders the template with the variable texts; top-level
 // wildcards get filler segments.
-func (p *plan) instantiate(texts map[string]string) string {
+func (p *plan) instantiate(texts map[string]string) string { return p.instantiateTail(texts, false) }
+
+// endsInStarStar: the template's last segment is ** or a variable whose
+// pattern ends in **.
+func (p *plan) endsInStarStar() bool {
+	if len(p.t.Segs) < 2 {
+		return false
+	}
+	last := p.t.Segs[len(p.t.Segs)-1]
+	if last.Kind == tmplref.StarStar {
+		return true
+	}
+	return last.Kind == tmplref.Var && len(last.Pat) == 1 && last.Pat[0].Kind == tmplref.StarStar
+}
+
+// instantiateTail with zeroTail renders a trailing ** (bare or variable) with
+// ZERO segments: the path stops right before it.
+func (p *plan) instantiateTail(texts map[string]string, zeroTail bool) string {
 	var segs []string
-	for _, s := range p.t.Segs {
+	for i, s := range p.t.Segs {
+		if zeroTail && i == len(p.t.Segs)-1 {
+			break
+		}
 		switch s.Kind {
 		case tmplref.Lit:
 			segs = append(segs, s.Text)
